@@ -436,41 +436,56 @@ class Check:
         return 1 if self.violations else 0
 
 
-def prove(chk, module, extra_modules=(), min_examples=0):
-    """Translator + lake build of the property's proof module + audit.
+def prove(chk, modules, min_examples=0):
+    """Translator + lake build of the property's proof modules + audit.
     Returns (ok, details). Records obligations in chk.cov."""
+    if isinstance(modules, str):
+        modules = [modules]
     details = {}
     try:
         tr = run_translator()
     except Exception as e:  # translator crashed: fail closed
         tr = {"translator": repr(e)}
     details["translator"] = tr
-    ok_build, out = lake_build([module] + list(extra_modules) + ["ivdriver"])
+    chk.cov["translator_fragments"] = {k: ("ok" if v is None else v) for k, v in tr.items()}
+    ok_build, out = lake_build(list(modules) + ["ivdriver"])
     details["build_ok"] = ok_build
     details["build_tail"] = out[-3000:]
     names = []
-    try:
-        names = theorems_of(module)
-    except OSError:
-        pass
+    per_mod = {}
+    for m in modules:
+        try:
+            per_mod[m] = theorems_of(m)
+        except OSError:
+            per_mod[m] = []
+        names += per_mod[m]
     chk.cov["obligations"] = len(names)
-    chk.cov["checker_cmd"] = "cd lean && lake build %s && lake env lean <#print axioms of every theorem>" % module
+    chk.cov["checker_cmd"] = ("python3-vt translator/generate_all.py && cd lean && lake build %s && "
+                              "lake env lean <file with `#print axioms` for each of the %d theorems>"
+                              % (" ".join(modules), len(names)))
     chk.cov["theorems"] = names
     if not ok_build:
         chk.cov["discharged"] = 0
         details["broken"] = first_error(out)
+        # which theorems still check?  (modules that built)
         return False, details
-    ok_ax, axs, raw = axioms_audit(module, names)
-    details["axioms"] = axs
-    chk.cov["discharged"] = sum(1 for n in names if n in axs and set(axs[n]) <= ALLOWED_AXIOMS)
-    chk.cov["axioms_used"] = sorted({a for v in axs.values() for a in v})
+    discharged = 0
+    all_axs = {}
+    for m in modules:
+        ok_ax, axs, raw = axioms_audit(m, per_mod[m])
+        all_axs.update(axs)
+        discharged += sum(1 for n in per_mod[m] if n in axs and set(axs[n]) <= ALLOWED_AXIOMS)
+        if not ok_ax:
+            details["broken"] = "axiom audit failed for %s: %s" % (m, raw[-1500:])
+    details["axioms"] = all_axs
+    chk.cov["discharged"] = discharged
+    chk.cov["axioms_used"] = sorted({a for v in all_axs.values() for a in v})
+    if "broken" in details:
+        return False, details
     forb = forbidden_tokens()
     details["forbidden"] = forb
-    nex = count_examples(module)
+    nex = sum(count_examples(m) for m in modules)
     chk.cov["nonvacuity_examples"] = nex
-    if not ok_ax:
-        details["broken"] = "axiom audit failed: " + raw[-1500:]
-        return False, details
     if forb:
         details["broken"] = "forbidden tokens: " + "; ".join(forb[:5])
         return False, details
@@ -478,12 +493,16 @@ def prove(chk, module, extra_modules=(), min_examples=0):
         details["broken"] = "non-vacuity examples missing (%d < %d)" % (nex, min_examples)
         return False, details
     if chk.tier == "thorough":
-        with Lock("lake"):
-            p = subprocess.run(["lake", "env", "leanchecker", module], cwd=LEAN,
-                               stdout=subprocess.PIPE, stderr=subprocess.STDOUT, text=True)
-        chk.cov["leanchecker"] = "ok" if p.returncode == 0 else p.stdout[-500:]
-        if p.returncode != 0:
-            details["broken"] = "leanchecker: " + p.stdout[-1500:]
+        res = {}
+        for m in modules:
+            with Lock("lake"):
+                p = subprocess.run(["lake", "env", "leanchecker", m], cwd=LEAN,
+                                   stdout=subprocess.PIPE, stderr=subprocess.STDOUT, text=True)
+            res[m] = "ok" if p.returncode == 0 else p.stdout[-500:]
+            if p.returncode != 0:
+                details["broken"] = "leanchecker %s: %s" % (m, p.stdout[-1500:])
+        chk.cov["leanchecker"] = res
+        if "broken" in details:
             return False, details
     return True, details
 
